@@ -438,7 +438,8 @@ check("C11", "exploration",
       "the real Query::execute on every shard of a sharded TestWorld (malicious contexts, HPKE-encrypted length-delimited input) for "
       "1, 2, 3 shards: 3 distinct reports in two base placements; one report duplicated with the copy placed on every shard, at the "
       "front and at the back of that shard's input; both copies away from the original; a triple; two different duplicated reports; "
-      "and the duplicate-free inputs. Oracle per helper: the shard the duplicated report is routed to (first 16 bytes of the match-key "
+      "and the duplicate-free inputs; base placements that leave shards without input (the copies are then routed to a dry shard); one "
+      "shard with a gateway window of 16 records holding 18 (40) reports with the copy at the far end. Oracle per helper: the shard the duplicated report is routed to (first 16 bytes of the match-key "
       "ciphertext, little-endian, modulo the shard count - computed from the raw bytes) fails with DuplicateBytes and the helper does "
       "not complete; duplicate-free inputs are never answered with DuplicateBytes and run to completion on every shard. Component arm: UniqueTagValidator on tag pairs "
       "differing in each of the 128 bits, shard_picker against u128 arithmetic. distinct_nontrivial = inputs executed.",
